@@ -7,7 +7,8 @@ from harness.runner import Part, Result
 
 ID = "C14"
 RULE = ("Pipeline entry -> [map] -> latest -> [map] -> consumer (future-returning or native "
-        "coroutine, finished by the harness); schedule = any interleaving of arrivals and "
+        "coroutine, finished by the harness; without map nodes the elements may be a plain "
+        "None, matched by value); schedule = any interleaving of arrivals and "
         "consumer completions (arrival while idle, while busy, several during one busy period) "
         "followed by a finish phase (consumer free, loop quiescent). Oracle: the delivered "
         "sequence is a subsequence of the arrivals with strictly increasing arrival index (no "
